@@ -314,8 +314,15 @@ macro_rules! c07_normal {
                 let d = match Normal::<$f>::new(mean, sd) { Ok(d) => d, Err(_) => return };
                 let x: $f = d.sample(&mut rng);
                 // the same number of words whatever the parameters (std_dev = 0 and negative std_dev included)
-                vassert!(rng.pos == 1 && flog_n() == 1, "Normal: number of standard draws depends on the parameters");
-                let (_, _, z) = flog_get(0);
+                let z: f64 = if native() {
+                    let mut r2 = SymRng::from_words(rng.words, NW);
+                    let z: $f = StandardNormal.sample(&mut r2);
+                    vassert!(rng.pos == r2.pos, "Normal: number of words consumed differs from that of the standard normal draw");
+                    z as f64
+                } else {
+                    vassert!(rng.pos == 1 && flog_n() == 1, "Normal: number of standard draws depends on the parameters");
+                    flog_get(0).2
+                };
                 vassert!(biteq64(x as f64, (mean + sd * (z as $f)) as f64), "Normal: sample is not mean + std_dev * z");
                 // from_zscore for the same z
                 vassert!(biteq64(d.from_zscore(z as $f) as f64, (mean + sd * (z as $f)) as f64), "Normal::from_zscore(z) is not mean + std_dev * z");
@@ -351,10 +358,18 @@ macro_rules! c07_lognormal {
                 let sigma: $f = kani::any();
                 let d = match LogNormal::<$f>::new(mu, sigma) { Ok(d) => d, Err(_) => return };
                 let x: $f = d.sample(&mut rng);
-                vassert!(rng.pos == 1 && flog_n() == 2, "LogNormal: expected one standard draw and one exponential");
-                let (_, _, z) = flog_get(0);
-                let (a, _, e) = flog_get(1);
-                vassert!(biteq64(a, (mu + sigma * (z as $f)) as f64), "LogNormal: exponential is not taken of mu + sigma * z");
+                let (z, e): (f64, f64) = if native() {
+                    let mut r2 = SymRng::from_words(rng.words, NW);
+                    let z: $f = StandardNormal.sample(&mut r2);
+                    vassert!(rng.pos == r2.pos, "LogNormal: number of words consumed differs from that of the standard normal draw");
+                    (z as f64, num_traits::Float::exp(mu + sigma * z) as f64)
+                } else {
+                    vassert!(rng.pos == 1 && flog_n() == 2, "LogNormal: expected one standard draw and one exponential");
+                    let (_, _, z) = flog_get(0);
+                    let (a, _, e) = flog_get(1);
+                    vassert!(biteq64(a, (mu + sigma * (z as $f)) as f64), "LogNormal: exponential is not taken of mu + sigma * z");
+                    (z, e)
+                };
                 vassert!(biteq64(x as f64, (e as $f) as f64), "LogNormal: sample is not exp(mu + sigma * z)");
                 kani::cover!(z == 2.0, "z = 2");
             }
